@@ -1009,6 +1009,14 @@ func c17Judge(rep *Report, in c17Input, envs []*C17Env) bool {
 		rep.hist("both forms rejected at compile time")
 		return false
 	}
+	// the operator mapping is independent of the optimizer: with expr.Optimize(false) the operator form is accepted and answers alike
+	pn, en, pnPanic := c17CompileSafe(in.Expr, append(append(append([]expr.Option{}, base...), opOpts...), expr.Optimize(false)))
+	pbn, ebn, _ := c17CompileSafe(in.Explicit, append(append([]expr.Option{}, base...), expr.Optimize(false)))
+	if pnPanic || en != nil || ebn != nil {
+		rep.fail(Failure{Key: key("C17-compile-differs"), What: "the operator form / the explicit form is accepted with the optimizer on and not with expr.Optimize(false)", Input: in,
+			Want: "accepted", Got: c17ErrStr(en) + " / " + c17ErrStr(ebn), Replay: string(rp)})
+		return false
+	}
 	for i, e := range envs {
 		if in.EnvIdx >= 0 && i != in.EnvIdx {
 			continue
@@ -1016,7 +1024,17 @@ func c17Judge(rep *Report, in c17Input, envs []*C17Env) bool {
 		env := c17EnvAs(e, in.Env)
 		ra := c17RunSafe(pa, env)
 		rb := c17RunSafe(pb, env)
-		rep.Evaluations++
+		rn := c17RunSafe(pn, env)
+		rbn := c17RunSafe(pbn, env)
+		rep.Evaluations += 3
+		if rn.cls != rbn.cls || (rn.cls == "" && !reflect.DeepEqual(rn.out, rbn.out)) || (rn.cls == "" && c17LogString(rn.log) != c17LogString(rbn.log)) {
+			in3 := in
+			in3.EnvIdx = i
+			rp3, _ := json.Marshal(in3)
+			rep.fail(Failure{Key: key("C17-result-differs"), What: "operator form compiled with expr.Optimize(false) and explicit-call form evaluate differently", Input: in3,
+				Want: "as " + in.Explicit + " without operator mapping, Optimize(false): " + c17Show(rbn), Got: "Optimize(false): " + c17Show(rn), Replay: string(rp3)})
+			return true
+		}
 		if ra.cls == "" {
 			rep.hist("run ok")
 		} else {
